@@ -7,7 +7,7 @@ from typing import Dict, List, Optional, Tuple
 
 from sa.canon import canon, same
 from sa.index import AnalysisError
-from sa.peval import PURE_FUNCS, Unknown, compile_term, peval
+from sa.peval import PURE_FUNCS, Unknown, compile_term, peval  # noqa: F401
 from sa.report import Ctx
 from sa.sym import FALSE, NONE, TRUE, Summary, bind_args, conjuncts, show, subst, walk
 
@@ -167,6 +167,80 @@ class C06:
                         f"are swapped (e.g. only one geometry is buffered, or an extent of one side is used twice)",
                         s.node.lineno)
 
+    def time_iou_by_machine(self, ts: Summary):
+        """The same decision as time_iou_by_regions for spellings its term abstraction cannot read (functional pipelines, records with
+        methods, strategy objects): the SUMMARY of compute_affinity_in_time is interpreted (sa/meval.Machine) on model geometries that
+        only have bounds, on the same orderings / sample points and the same decimal grid.  None = outside the interpreted fragment."""
+        import itertools
+        from types import SimpleNamespace as NS
+        from sa.meval import Machine, ModelRaise
+        from sa.peval import Unknown
+        M = Machine(self.ctx.summ, self.ctx.index, stubs={
+            f"{OPS}:compute_bounds": lambda geometry: geometry.bounds4,
+            f"{CONV}:geometry_to_shapely": lambda geom: NS(bounds=geom.bounds4),
+        })
+
+        def run(s1, e1, s2, e2):
+            g1, g2 = NS(bounds4=(s1, 100.0, e1, 200.0), type="TimeInterval"), NS(bounds4=(s2, 300.0, e2, 900.0), type="TimeInterval")
+            try:
+                return ("value", M.apply_summary(ts, [g1, g2], {}, {}))
+            except ModelRaise as e:
+                return ("raises", e.name)
+
+        class _E:  # what a report points at
+            kind, term, lineno = "return", ("const", None), ts.node.lineno
+        try:
+            n_regions = 0
+            gaps = ((1.0, 2.0, 0.5, 3.25), (0.125, 4.0, 1.5, 0.75), (2.5, 0.25, 0.25, 6.0), (1.0, 1.0, 1.0, 1.0), (7.0, 0.375, 2.125, 0.5))
+            for ranks in itertools.product(range(4), repeat=4):
+                if sorted(set(ranks)) != list(range(len(set(ranks)))) or ranks[0] > ranks[1] or ranks[2] > ranks[3]:
+                    continue
+                n_regions += 1
+                for k, gp in enumerate(gaps):
+                    levels, cur = [], 0.375 * (k + 1)
+                    for r in range(4):
+                        cur += gp[r]
+                        levels.append(cur)
+                    s1, e1, s2, e2 = [levels[r] for r in ranks]
+                    inter = max(0.0, min(e1, e2) - max(s1, s2))
+                    union = (e1 - s1) + (e2 - s2) - inter
+                    want = 0.0 if union == 0 else inter / union
+                    where = {"geometry1": [s1, e1], "geometry2": [s2, e2]}
+                    got = run(s1, e1, s2, e2)
+                    if got[0] == "raises":
+                        self._regions_n = n_regions
+                        return (False, f"raises {got[1]} for the time extents {where} (the intersection-over-union there is {want})"
+                                + (": the zero-union guard is missing" if got[1] == "ZeroDivisionError" or union == 0 else ""), (_E, where))
+                    v = got[1]
+                    if isinstance(v, bool) or not isinstance(v, (int, float)) or v != want:
+                        self._regions_n = n_regions
+                        return (False, f"gives {v!r} for the time extents {where}; the intersection-over-union of the two intervals is {want!r}", (_E, where))
+            grid = [k / 10 for k in range(0, 13)]
+            for s1, e1, s2, e2 in itertools.product(grid, repeat=4):
+                if s1 > e1 or s2 > e2 or (e1 - s1) + (e2 - s2) == 0:
+                    continue
+                got = run(s1, e1, s2, e2)
+                where = {"geometry1": [s1, e1], "geometry2": [s2, e2]}
+                if got[0] == "raises":
+                    continue
+                v = got[1]
+                if not isinstance(v, (int, float)) or isinstance(v, bool):
+                    continue
+                if (e1 <= s2 or e2 <= s1) and v != 0:
+                    self._regions_n = n_regions
+                    return (False, f"gives {v!r} for the time extents {where}, which are disjoint or merely touch: the affinity must be exactly 0 "
+                                   f"there (a positive value, however small, makes the matcher pair the two)", (_E, where))
+                if (s1, e1) == (s2, e2) and e1 > s1 and v != 1:
+                    self._regions_n = n_regions
+                    return (False, f"gives {v!r} for the extent {[s1, e1]} compared with itself: the affinity must be exactly 1", (_E, where))
+                if not (0 <= v <= 1):
+                    self._regions_n = n_regions
+                    return (False, f"gives {v!r} for the time extents {where}: outside [0, 1]", (_E, where))
+        except (Unknown, RecursionError, ZeroDivisionError):
+            return None
+        self._regions_n = n_regions
+        return (True, "equals the interval IoU on every ordering of the four time bounds (summary interpreted on model geometries)", None)
+
     def time_iou_by_regions(self, ts: Summary):
         """compute_affinity_in_time as a function of the four time bounds (s1, e1, s2, e2) = compute_bounds(g)[0], [2]: where its
         return paths only compare and add / subtract / divide these four numbers (max / min / abs included), the function is
@@ -197,12 +271,12 @@ class C06:
         for _, lv, tm, _ in outcomes:
             for x in list(walk(lv)) + list(walk(tm)):
                 if x[0] == "param" and x not in allowed:
-                    self._regions_cache = (ts, None)
-                    return None
+                    self._regions_cache = (ts, self.time_iou_by_machine(ts))
+                    return self._regions_cache[1]
                 if x[0] in ("global", "attr", "elem", "ext", "alloc", "lambda", "comp") or (x[0] == "call" and x[1] not in PURE_FUNCS):
                     if not (x[0] in ("builtin", "ext") and len(x) == 2):
-                        self._regions_cache = (ts, None)
-                        return None
+                        self._regions_cache = (ts, self.time_iou_by_machine(ts))
+                        return self._regions_cache[1]
         result = (True, f"equals the interval IoU on every ordering of the four time bounds", None)
         n_regions = 0
         gaps = ((1.0, 2.0, 0.5, 3.25), (0.125, 4.0, 1.5, 0.75), (2.5, 0.25, 0.25, 6.0), (1.0, 1.0, 1.0, 1.0), (7.0, 0.375, 2.125, 0.5))
@@ -241,8 +315,8 @@ class C06:
                     if on is None or on:
                         alive.append((kind, tm, e, on is None))
                 if undecided or len(alive) != 1:
-                    self._regions_cache = (ts, None)
-                    return None
+                    self._regions_cache = (ts, self.time_iou_by_machine(ts))
+                    return self._regions_cache[1]
                 kind, tm, e, div0 = alive[0]
                 where = {"geometry1": [s1, e1], "geometry2": [s2, e2]}
                 if kind == "raise":
@@ -789,6 +863,137 @@ class C06:
             ctx.ok("R06.5", f"{self.file}:{r.lineno} {fname}", "time quotient: one subtraction chain over the same four floats (no clamp needed)")
 
 
+# ------------------------------------------------------------------------------------------- compute_affinity on rectangle models
+class _Rect:
+    """the converted shape of a model geometry: an axis-aligned rectangle (possibly of zero width / height), with the two operations
+    compute_affinity uses (the engine writes shapely.intersection(a, b) / shapely.area(a) in this method / attribute form)"""
+    def __init__(self, s, lo, e, hi):
+        self.b = (s, lo, e, hi)
+
+    @property
+    def bounds(self):
+        return self.b
+
+    @property
+    def area(self):
+        s, lo, e, hi = self.b
+        return max(e - s, 0.0) * max(hi - lo, 0.0)
+
+    def intersection(self, other):
+        s, lo, e, hi = max(self.b[0], other.b[0]), max(self.b[1], other.b[1]), min(self.b[2], other.b[2]), min(self.b[3], other.b[3])
+        return _Rect(s, lo, e, hi) if s <= e and lo <= hi else _Rect(0.0, 0.0, 0.0, 0.0)
+
+    def union(self, other):
+        raise Unknown("union of shapes is not modelled")
+
+
+_LOW_DIM = ("TimeStamp", "Point", "MultiPoint", "LineString", "MultiLineString")
+
+
+def affinity_models(ctx):
+    """compute_affinity on model geometries that are rectangles in the time-frequency plane, tagged with every geometry type (the
+    library's buffering is modelled as the widening it is for a rectangle, the conversion as the rectangle itself): for all ordered
+    pairs of types, five placements (overlapping, nested, touching in time, disjoint, identical) and two unequal buffer pairs the
+    value must be the statement's: 0-/1-dimensional types are widened by the buffers first, the others are not; if either geometry
+    is a TimeStamp / TimeInterval the IoU of the time extents, else the area IoU (at most 1); 0 where the union is 0; and the same
+    with the arguments swapped.  -> (n, None, None) / (n, message, witness); Unknown outside the interpreted fragment."""
+    from types import SimpleNamespace as NS
+    from sa.meval import Machine, ModelRaise
+    MAXF = 5_000_000.0
+
+    def widen(g, tb, fb):
+        s, lo, e, hi = g.bounds4
+        if g.type in ("TimeStamp", "TimeInterval"):
+            return NS(type="TimeInterval", bounds4=(max(s - tb, 0.0), lo, e + tb, hi), coordinates=None)
+        return NS(type="Polygon" if g.type != "BoundingBox" else "BoundingBox",
+                  bounds4=(max(s - tb, 0.0), max(lo - fb, 0.0), e + tb, min(hi + fb, MAXF)), coordinates=None)
+
+    def buffer_stub(geometry, time_buffer=0, freq_buffer=0, **kw):
+        if time_buffer < 0 or freq_buffer < 0:
+            raise ModelRaise("ValueError")
+        return widen(geometry, time_buffer, freq_buffer)
+
+    M = Machine(ctx.summ, ctx.index, stubs={
+        f"{OPS}:compute_bounds": lambda geometry: geometry.bounds4,
+        f"{OPS}:buffer_geometry": buffer_stub,
+        f"{CONV}:geometry_to_shapely": lambda geom: _Rect(*geom.bounds4),
+    })
+    types = ("TimeStamp", "TimeInterval", "Point", "LineString", "Polygon", "BoundingBox", "MultiPoint", "MultiLineString", "MultiPolygon")
+
+    def shape_of(t, s, lo, e, hi):
+        if t == "TimeStamp":
+            return NS(type=t, bounds4=(s, 0.0, s, MAXF), coordinates=s)
+        if t == "TimeInterval":
+            return NS(type=t, bounds4=(s, 0.0, e, MAXF), coordinates=[s, e])
+        if t in ("Point", "MultiPoint"):
+            return NS(type=t, bounds4=(s, lo, s, lo), coordinates=None)
+        if t in ("LineString", "MultiLineString"):
+            return NS(type=t, bounds4=(s, lo, e, lo), coordinates=None)  # a horizontal line
+        return NS(type=t, bounds4=(s, lo, e, hi), coordinates=None)
+
+    def oracle(g1, g2, tb, fb):
+        p1 = widen(g1, tb, fb) if g1.type in _LOW_DIM else g1
+        p2 = widen(g2, tb, fb) if g2.type in _LOW_DIM else g2
+        if p1.type in ("TimeStamp", "TimeInterval") or p2.type in ("TimeStamp", "TimeInterval"):
+            s1, _, e1, _ = p1.bounds4
+            s2, _, e2, _ = p2.bounds4
+            inter = max(0.0, min(e1, e2) - max(s1, s2))
+            union = (e1 - s1) + (e2 - s2) - inter
+            return 0.0 if union == 0 else inter / union
+        r1, r2 = _Rect(*p1.bounds4), _Rect(*p2.bounds4)
+        inter = r1.intersection(r2).area
+        union = r1.area + r2.area - inter
+        return 0.0 if union == 0 else min(inter / union, 1.0)
+
+    placements = (((1.0, 100.0, 3.0, 300.0), (2.0, 200.0, 5.0, 500.0)), ((1.0, 100.0, 9.0, 900.0), (2.0, 200.0, 3.0, 300.0)),
+                  ((1.0, 100.0, 2.0, 300.0), (2.0, 100.0, 4.0, 300.0)), ((1.0, 100.0, 2.0, 200.0), (6.0, 700.0, 8.0, 900.0)),
+                  ((2.0, 200.0, 4.0, 400.0), (2.0, 200.0, 4.0, 400.0)))
+    n = 0
+    for t1 in types:
+        for t2 in types:
+            for b1, b2 in placements:
+                for tb, fb in ((0.5, 16.0), (0.125, 64.0)):
+                    g1, g2 = shape_of(t1, *b1), shape_of(t2, *b2)
+                    want = oracle(g1, g2, tb, fb)
+                    for a, b in ((g1, g2), (g2, g1)):
+                        try:
+                            got = ("value", M.call(AFF, "compute_affinity", a, b, time_buffer=tb, freq_buffer=fb))
+                        except ModelRaise as e:
+                            got = ("raises", e.name)
+                        n += 1
+                        if got[0] != "value" or isinstance(got[1], bool) or not isinstance(got[1], (int, float)) or got[1] != want:
+                            w = {"geometry1": {"type": a.type, "bounds": list(a.bounds4)}, "geometry2": {"type": b.type, "bounds": list(b.bounds4)},
+                                 "time_buffer": tb, "freq_buffer": fb, "expected": want, "got": got[1]}
+                            return n, (f"compute_affinity of a {a.type} with bounds {list(a.bounds4)} and a {b.type} with bounds {list(b.bounds4)} "
+                                       f"(time_buffer {tb}, freq_buffer {fb}; shapes modelled as rectangles) "
+                                       f"{'gives ' + repr(got[1]) if got[0] == 'value' else 'raises ' + got[1]}; the statement gives {want!r}"), w
+    return n, None, None
+
+
+def _settle_affinity(ctx, c, symmetry=True):
+    """the spelling-based rules of compute_affinity (type tables included), then the rectangle models (rules/common.Settle)"""
+    from .common import Settle
+    st = Settle(ctx)
+    c.check_sets()
+    if symmetry:
+        c.check_symmetry()
+    c.check_body()
+    try:
+        res = affinity_models(ctx)
+    except (Unknown, RecursionError):
+        return
+    file = ctx.index.module(AFF).relpath
+    if res[1] is None:
+        if not st.clean():
+            st.withdraw()
+            what = f"agrees with the statement on all {res[0]} rectangle models (every ordered pair of geometry types, five placements, two buffer pairs, both argument orders)"
+            for rid, k in (("R06.1", 2 if symmetry else 0), ("R06.2", 3), ("R06.3", 3), ("R06.4", 4), ("R06.5", 2)):
+                for _ in range(k):
+                    ctx.ok(rid, f"{file} compute_affinity", what)
+    else:
+        ctx.bad("R06.4", file, "compute_affinity", "the function vs the statement on a rectangle model", res[1], 0, witness=res[2])
+
+
 def run(ctx: Ctx):
     ctx.rule("R06.1", "summaries invariant under swapping the two geometries", 2)
     ctx.rule("R06.2", "type sets exact; time branch iff either geometry is time-only", 3)
@@ -796,9 +1001,7 @@ def run(ctx: Ctx):
     ctx.rule("R06.4", "canonical IoU with zero-union guard in both branches", 4)
     ctx.rule("R06.5", "returned value cannot exceed 1 (area quotient clamped)", 2)
     c = C06(ctx)
-    c.check_sets()
-    c.check_symmetry()
-    c.check_body()
+    _settle_affinity(ctx, c)
     # 0-/1-dimensional geometries get their area from buffer_geometry (anchored file geometry/operations.py): its rules
     # (C11) are necessary conditions of the affinity of such geometries
     from . import c11
@@ -818,8 +1021,7 @@ def run_for_detection(ctx: Ctx):
     ctx.rule("R06.4", "canonical IoU with zero-union guard in both branches", 4)
     ctx.rule("R06.5", "returned value cannot exceed 1 (area quotient clamped)", 2)
     c = C06(ctx)
-    c.check_sets()
-    c.check_body()
+    _settle_affinity(ctx, c, symmetry=False)
     # "overlap" is the overlap of the shapes the geometries are converted / buffered to: a converter that drops a hole, or a
     # buffering step that fills one, reports an overlap the geometries do not have
     from . import c03, c05, c11
